@@ -54,3 +54,34 @@ reg("C18",
     "breakability guarantee is counted, not judged. Known defect "
     "trailing_comment_split needs the comment-free twin to pass.",
     "DESIGN.md §5 C18")
+
+reg("C14",
+    "invariant monitor at the public-operation boundary over generated and "
+    "enumerated edit histories on the real PSyIR classes",
+    "After every public child-list operation (append/insert/extend/[]=/del/"
+    "remove/pop/reverse/clear/addchild/children=/+=/replace_with/detach/"
+    "pop_all_children, indices in [-6,6]) the whole forest of nodes is "
+    "walked: parent lists child exactly once, every child passes the "
+    "parent's own _validate_child at its position, parent links agree; an "
+    "operation that raised must leave the identity structure unchanged. All "
+    "single operations of a small alphabet on 6-10 target node types and "
+    "pairs of them are enumerated; longer histories are random.",
+    "Trusts PSyIR's own _validate_child as the definition of 'valid at its "
+    "position'. Cycles are not generated (outside the statement).",
+    "DESIGN.md §5 C14")
+
+reg("C16",
+    "invariant + post-condition monitor over generated operation histories "
+    "on real nested SymbolTables",
+    "After every public SymbolTable operation in random histories (<=15 "
+    "quick / <=50 thorough) over Container>Routine>loop-body scopes, an "
+    "independent routine and a free table: key == normalised name, tags and "
+    "arguments are members, lookup() returns the innermost symbol computed "
+    "by my own walk of the scope chain (any spelling), fresh names clash "
+    "with nothing visible nor the other table, merge represents every "
+    "non-skipped symbol exactly once and renames only clashing names, and a "
+    "raising operation leaves every table view unchanged.",
+    "A table that was merged from is retired (as real callers do); sharing "
+    "one symbol between two live tables is not judged. Accepted merge "
+    "de-duplications are the documented ones.",
+    "DESIGN.md §5 C16")
